@@ -458,7 +458,16 @@ def classify(seq, kind, got, ref):
     others = [o for o in seq[:-1] if o[0] in 'CPS' and not (last[0] in 'MG' and o is seq[last[1]])]
     same = [o for o in others if o[1] == gl]
     cross = [o for o in others if o[1] != gl]
-    what = 'asmodel' if _model_building(got) != _model_building(ref) else 'settings'
+    def asm(o):
+        return bool(o[0] in 'CPS' and VARIANTS[o[2]].get('asmodel'))
+
+    base = seq[last[1]] if last[0] in 'MG' else last
+    what = 'settings'
+    if _model_building(got) != _model_building(ref):
+        what = 'asmodel'
+    elif same and all(asm(o) != asm(base) for o in same if o != base):
+        # no node in the result (e.g. only a ::int conversion), but every interfering call differs in asmodel
+        what = 'asmodel'
     if cross and not same:
         if {gl, cross[0][1]} == {'B', 'E'}:
             return 'synth-registry-ignores-declared-bases'
